@@ -731,6 +731,29 @@ pub fn exec_op(ctx: &mut ThreadCtx, idx: usize, op: OpRef, o: &Op, inner: &[Op])
             }
             Ret::None
         }
+        Op::UserPanic { kind } => {
+            struct UserFail;
+            struct FailingName;
+            impl From<FailingName> for std::borrow::Cow<'static, str> {
+                fn from(_: FailingName) -> Self {
+                    std::panic::resume_unwind(Box::new(UserFail))
+                }
+            }
+            let r = std::panic::catch_unwind(std::panic::AssertUnwindSafe(|| match kind % 4 {
+                0 => drop(LocalSpan::enter_with_local_parent(FailingName)),
+                1 => drop(Span::enter_with_local_parent(FailingName)),
+                2 => {
+                    LocalSpan::add_properties(|| -> Vec<(String, String)> { std::panic::resume_unwind(Box::new(UserFail)) });
+                }
+                _ => LocalSpan::add_event(Event::new(FailingName)),
+            }));
+            if let Err(p) = r {
+                if !p.is::<UserFail>() {
+                    std::panic::resume_unwind(p);
+                }
+            }
+            Ret::None
+        }
         Op::EventNew { ev, n } => {
             let mut e = Event::new(event_name(case.str_seed, op));
             if *n > 0 {
